@@ -417,8 +417,8 @@ async fn cursor_enum_thorough() {
 // step a fresh reader sees exactly the writes of the commits that succeeded so far, in commit order, and every
 // open read-write transaction still reads its begin-time state of the keys it has not written.
 // Bound (stated): 2 transactions x every interleaving of [begin, write, commit] x every non-empty key subset of
-// {a, b} each x mode {read-write, write-only} (720 schedules); 3 read-write transactions x every interleaving x
-// one key each from {a, b} (13440 schedules).  No real concurrency: every step runs to completion.
+// {a, b} each x mode {read-write, write-only} x each write a value or a delete (2880 schedules); 3 read-write
+// transactions x every interleaving x one key each from {a, b} x 4 set/delete patterns (53760 schedules).  No real concurrency: every step runs to completion.
 #[derive(Clone, Copy, Debug, PartialEq)]
 enum Step {
 	Begin(usize),
@@ -479,9 +479,12 @@ async fn conflict_enum() {
 			v
 		};
 		let modesets: Vec<Vec<Mode>> = if n == 2 { vec![vec![Mode::ReadWrite, Mode::ReadWrite], vec![Mode::ReadWrite, Mode::WriteOnly], vec![Mode::WriteOnly, Mode::ReadWrite], vec![Mode::WriteOnly, Mode::WriteOnly]] } else { vec![vec![Mode::ReadWrite; 3]] };
+		// what each transaction writes: a value or a (hard) delete
+		let delsets: Vec<Vec<bool>> = if n == 2 { vec![vec![false, false], vec![false, true], vec![true, false], vec![true, true]] } else { vec![vec![false, false, false], vec![false, true, false], vec![false, false, true], vec![true, false, false]] };
 		for sched in &scheds {
 			for ks in &keysets {
 				for modes in &modesets {
+				for dels in &delsets {
 					cases += 1;
 					prog += 1;
 					let kname = |k: u8| format!("p{prog:06}_{}", (b'a' + k) as char).into_bytes();
@@ -508,7 +511,11 @@ async fn conflict_enum() {
 							}
 							Step::Write(i) => {
 								for &k in &ks[i] {
-									txs[i].as_mut().unwrap().set(kname(k), format!("t{i}").into_bytes()).unwrap();
+									if dels[i] {
+										txs[i].as_mut().unwrap().delete(kname(k)).unwrap();
+									} else {
+										txs[i].as_mut().unwrap().set(kname(k), format!("t{i}").into_bytes()).unwrap();
+									}
 								}
 							}
 							Step::Commit(i) => {
@@ -518,7 +525,7 @@ async fn conflict_enum() {
 								match (&r, must_conflict) {
 									(Ok(()), false) => {
 										for &k in &ks[i] {
-											model[k as usize] = format!("t{i}").into_bytes();
+											model[k as usize] = if dels[i] { Vec::new() } else { format!("t{i}").into_bytes() };
 											for (j, d) in dirty_since_begin.iter_mut().enumerate() {
 												if j != i {
 													d.insert(k);
@@ -575,9 +582,10 @@ async fn conflict_enum() {
 					}
 					if let Some(b) = bad {
 						if failures.len() < 5 {
-							failures.push(format!("{{\"schedule\":\"{:?}\",\"keys_written_per_transaction(0=a,1=b)\":\"{:?}\",\"modes\":\"{:?}\",\"mismatch\":{:?}}}", sched, ks, modes, b));
+							failures.push(format!("{{\"schedule\":\"{:?}\",\"keys_written_per_transaction(0=a,1=b)\":\"{:?}\",\"write_is_delete\":\"{:?}\",\"modes\":\"{:?}\",\"mismatch\":{:?}}}", sched, ks, dels, modes, b));
 						}
 					}
+				}
 				}
 			}
 		}
